@@ -590,6 +590,102 @@ def p1(h, st):
     h.done()
 
 
+# ---------------------------------------------------------------------------------------------------------------------
+# O7  histories on ONE backend object: operators and circuits updated IN PLACE between evaluations, changing initial states
+
+HIST_STEPS = ["eval", "op_iadd", "op_imul", "op_setterm", "op_compress", "circ_add_gate", "init_v1", "init_v2", "init_none", "other_op", "other_circuit"]
+
+
+def o7_structures(tier):
+    import itertools as it
+    sts = []
+    for b in ("cirq", "sympy"):
+        for prep in (0, 1):
+            seqs = [list(x) for x in it.permutations(["op_iadd", "op_imul", "op_setterm", "circ_add_gate", "init_v1", "init_none", "other_op", "other_circuit", "op_compress", "init_v2"], 3)]
+            step = 29 if tier == "quick" else 7
+            for i, q in enumerate(seqs):
+                if i % step == (prep * 3) % step:
+                    sts.append({"backend": b, "prep": prep, "steps": q})
+    return sts if tier != "quick" else [x for x in sts if x["backend"] == "cirq"] + [x for x in sts if x["backend"] == "sympy"][::4]
+
+
+@contract("C02", "O7.expectation.histories_in_place_updates", level="B", structures=o7_structures, native_samples=lambda st, rnd, tier: [{}],
+          targets=[(BK, "Backend.get_expectation_value"), (BK, "Backend._get_expectation_value_from_statevector"), (TGC, "CirqSimulator.expectation_value_from_prepared_state")])
+def o7(h, st):
+    """bounded: ONE backend object, ONE operator object and ONE circuit object used along a history in which, between evaluations, the operator is updated IN PLACE (+=, *=,
+    a coefficient overwritten, compress), a gate is appended to the circuit, the initial statevector changes, or another operator / circuit is evaluated: after EVERY step
+    get_expectation_value(operator, circuit[, initial statevector]) equals <psi|H|psi> for the CURRENT operator, circuit and initial state (independent evaluation, 1e-8) -
+    no value computed for an earlier state of these objects is reused"""
+    import numpy as np
+    from tangelo.linq import get_backend
+    from tangelo.toolboxes.operators import QubitOperator
+    n = 3
+    sim = get_backend(st["backend"])
+    gates = build_prep(PREPS[st["prep"]])
+    c = mk_circuit(gates, n)
+    words = {"ZII": 0.7, "IXI": -1.3, "YYI": 0.45}
+    qop = QubitOperator()
+    for w, cf in words.items():
+        qop += QubitOperator(tuple((i, p) for i, p in enumerate(w) if p != "I"), cf)
+    other_op = QubitOperator(((2, "Z"),), 0.9) + QubitOperator(((0, "X"), (1, "X")), -0.2)
+    other_words = {"IIZ": 0.9, "XXI": -0.2}
+    other_gates = build_prep(PREPS[2])
+    other_c = mk_circuit(other_gates, n)
+    rs = np.random.default_rng(11)
+    vs = []
+    for _ in range(2):
+        v = rs.normal(size=8) + 1j * rs.normal(size=8)
+        vs.append(v / np.linalg.norm(v))
+    init = None
+
+    def exact(ws, gs, v0):
+        return sum(cf * exact_expectation(gs, n, w, None, v0)[0] for w, cf in ws.items())
+
+    order = sim.backend_info()["statevector_order"]
+    perm = list(range(2 ** n)) if order == "lsq_first" else [int(format(i, f"0{n}b")[::-1], 2) for i in range(2 ** n)]
+
+    def evaluate(tag, op, ws, circ, gs):
+        args = [sim, op, circ]
+        if init is not None:
+            v = np.array(init)[perm]       # in the backend's advertised index order
+            args.append(v if st["backend"] == "cirq" else v.reshape(-1, 1))
+        val = h.call(BK, "Backend.get_expectation_value", *args)
+        ev = exact(ws, gs, init)
+        h.check(tag + "expectation value == <psi|H|psi> for the current operator, circuit and initial state", abs(complex(val) - ev) < 1e-8, detail=f"{val} vs {ev}")
+    evaluate("initial evaluation: ", qop, words, c, gates)
+    for k, step in enumerate(st["steps"]):
+        tag = f"step {k} ({step}): "
+        if step == "op_iadd":
+            qop += QubitOperator(((1, "Z"), (2, "Z")), 0.31)
+            words["IZZ"] = words.get("IZZ", 0) + 0.31
+        elif step == "op_imul":
+            qop *= 1.5
+            words = {w: cf * 1.5 for w, cf in words.items()}
+        elif step == "op_setterm":
+            qop.terms[((0, "Z"),)] = -0.9
+            words["ZII"] = -0.9
+        elif step == "op_compress":
+            qop.terms[((1, "X"),)] = 1e-12
+            qop.compress()
+            words.pop("IXI", None)
+        elif step == "circ_add_gate":
+            g = mk_gate("RY", 1, None, 0.6)
+            c.add_gate(g)
+            gates = gates + [g]
+        elif step == "init_v1":
+            init = vs[0]
+        elif step == "init_v2":
+            init = vs[1]
+        elif step == "init_none":
+            init = None
+        elif step == "other_op":
+            evaluate(tag + "(another operator) ", other_op, other_words, c, gates)
+        elif step == "other_circuit":
+            evaluate(tag + "(another circuit) ", qop, words, other_c, other_gates)
+        evaluate(tag, qop, words, c, gates)
+    h.done()
+
+
 PROPERTY = {
     "level": "other",
     "explanation": "One-term estimators (parity-weighted sums, variance) are proved for every frequency assignment, the basis rotations exactly "
